@@ -13,7 +13,7 @@ From Coq Require Import NArith List String Bool.
 From Coq Require Import Strings.Byte.
 From PDL Require Import Base.Bits Base.Outcome Lang.Ast Lang.Sexp Analyzer.Schema Analyzer.Passes Rust.Enum
      Sem.RefEncode Rust.Encode Rust.Decode Proofs.Pack Proofs.BitfieldEncode Proofs.RoundTrip
-     Proofs.SchemaEnums Proofs.RoundTripReal Analyzer.Analyze Proofs.AnalyzerSchema.
+     Proofs.SchemaEnums Proofs.RoundTripReal Analyzer.Analyze Proofs.AnalyzerSchema Proofs.RoundTripArrays.
 Import ListNotations.
 Open Scope N_scope.
 
@@ -98,6 +98,38 @@ Theorem C02_accepted_files_round_trip :
     end.
 Proof. exact accepted_roundtrip. Qed.
 Print Assumptions C02_accepted_files_round_trip.
+
+(** COUNT AND SIZE FIELDS AND ARRAYS (Proofs/RoundTripArrays.v).  Root declarations made of
+    bit-fields, `_count_` / `_size_` fields and arrays of scalar elements delimited by them or
+    by a static count (the delimiting field declared before its array and not shadowed by a
+    later local of the same name -- both conditions are shown necessary by counter-examples
+    in that file): decode (encode v ++ tl) = (v, tl), for every value the reference can
+    encode whose arrays are no longer than the loop fuel of the model, any trailing bytes
+    within a 2^64-octet buffer, both byte orders and overflow modes. *)
+Theorem C02_counted_and_sized_arrays_round_trip :
+  forall (fuel fuel' : nat) (oc : bool) (fl : file) (sch : schema) (id : string) (d : decl)
+         (o : list (string * value)) (bs tl : list byte),
+    enum_widths_fit fl = true -> mk_schema fl = Some sch ->
+    enums_accepted fl ->
+    lookup_decl fl id = Some d ->
+    root_of_counted_fragment fl d ->
+    canonical_obj' o (decl_fields d) ->
+    (forall aid vs, assoc aid o = Some (VList vs) -> (List.length vs <= fuel')%nat) ->
+    ref_encode (S fuel) fl id (VObj o) = Some bs ->
+    len (bs ++ tl) < two64 ->
+    match rust_encode (S fuel) fl sch id (VObj o) with
+    | Ok bs' =>
+        bs' = bs /\
+        match rust_decode (S fuel') oc fl sch id (bs' ++ tl) with
+        | Ok r => r = (VObj o, tl)
+        | Panic GenAssert => True
+        | _ => False
+        end
+    | Panic GenAssert => True
+    | _ => False
+    end.
+Proof. exact rust_roundtrip_arrays_real_schema. Qed.
+Print Assumptions C02_counted_and_sized_arrays_round_trip.
 
 (** non-vacuity: a concrete big-endian file (an enum with a range and a default tag, a
     packet with a 3-bit scalar, the enum, a fixed field, reserved bits and a 24-bit scalar)
